@@ -1423,3 +1423,238 @@ func errorWayEdge(p *an.Prog, ph *ssa.Phi, i int) bool {
 	}
 	return false
 }
+
+// everyIterationAppends: in f, every iteration of the loop that ranges over a value whose description contains over
+// passes an append to a slice whose element type's name ends in elem, or leaves the function with an error.
+// Returns (found the loop, holds, witness).
+func everyIterationAppends(p *an.Prog, f *ssa.Function, over, elem string) (bool, bool, []string) {
+	var hdr *ssa.BasicBlock
+	an.Instrs(f, func(in ssa.Instruction) {
+		ia, ok := in.(*ssa.IndexAddr)
+		if !ok || hdr != nil {
+			return
+		}
+		if _, isK := ia.Index.(*ssa.Const); isK {
+			return
+		}
+		if strings.Contains(p.Desc(ia.X), over) {
+			hdr = loopHeaderOf(in.Block())
+		}
+	})
+	if hdr == nil {
+		return false, false, nil
+	}
+	inLoop := func(b *ssa.BasicBlock) bool {
+		if b == hdr {
+			return true
+		}
+		for _, pr := range hdr.Preds {
+			if hdr.Dominates(pr) && loopContains(hdr, pr, b) {
+				return true
+			}
+		}
+		return false
+	}
+	var body *ssa.BasicBlock
+	for _, sb := range hdr.Succs {
+		if sb != hdr && inLoop(sb) {
+			body = sb
+		}
+	}
+	if body == nil {
+		return true, false, nil
+	}
+	s := &an.Search{P: p, Fn: f,
+		Cut: func(in ssa.Instruction) bool {
+			cc := an.CallOf(in)
+			if cc == nil {
+				return false
+			}
+			b, ok := cc.Value.(*ssa.Builtin)
+			if !ok || b.Name() != "append" || len(cc.Args) == 0 {
+				return false
+			}
+			sl, ok := cc.Args[0].Type().Underlying().(*types.Slice)
+			return ok && strings.HasSuffix(sl.Elem().String(), elem)
+		},
+		GoalBlock: func(b, pred *ssa.BasicBlock) bool {
+			if b == hdr {
+				return true // next iteration without having appended
+			}
+			if inLoop(b) || pred == nil || !inLoop(pred) {
+				return false
+			}
+			if r, isRet := b.Instrs[len(b.Instrs)-1].(*ssa.Return); isRet && p.ClassifyReturn(r, pred) == an.RetError {
+				return false
+			}
+			return true // left the loop (break) without having appended
+		}}
+	w := s.Run(body, 0, hdr)
+	return true, w == nil, w
+}
+
+// ruleOneSenderPerRequestInput (C19, C02): the first-sender fallback has a sender to fall back on.
+func ruleOneSenderPerRequestInput(c *report.Ctx) {
+	p := c.P
+	c.Rule("one-sender-per-request-input", "WalletManager.CreateRawTransaction uses senders[0] as change address when none is given; it holds one sender per input only because (1) constructTxIn appends a sender in every iteration over its inputs (or fails), and (2) the API handler hands the wallet one input per request input (or fails) after checking that the request has inputs: a handler that skips entries (blank ids) after that check sends an empty list through, and the index panics in the request goroutine", 2)
+	cti := fn(c, pkgWallet, "WalletManager", "constructTxIn")
+	api := fn(c, pkgAPI, "APIServer", "CreateRawTransaction")
+	if cti != nil {
+		found, ok, w := everyIterationAppends(p, cti, "param:[]*masswallet.TxIn", "PkScript")
+		key := sk(cti) + ":sender-per-input"
+		switch {
+		case !found:
+			c.Fail(key, "constructTxIn no longer ranges over its inputs (anchor lost)", p.Pos(cti.Pos()))
+		case ok:
+			c.OK(key, "every iteration appends a sender or fails", p.Pos(cti.Pos()))
+		default:
+			c.Fail(key, "an iteration over the inputs can go on without appending a sender: fewer senders than inputs, and senders[0] may not exist", p.Pos(cti.Pos()), w...)
+		}
+	}
+	if api != nil {
+		found, ok, w := everyIterationAppends(p, api, "CreateRawTransactionRequest.Inputs", "masswallet.TxIn")
+		key := sk(api) + ":input-per-request-input"
+		switch {
+		case !found:
+			c.Fail(key, "the handler no longer ranges over the request's inputs (anchor lost)", p.Pos(api.Pos()))
+		case ok:
+			c.OK(key, "every request input reaches the wallet or fails the request", p.Pos(api.Pos()))
+		default:
+			c.Fail(key, "a request input can be skipped: the emptiness check looked at the unfiltered list, so an empty list can reach WalletManager.CreateRawTransaction, which indexes senders[0] — a panic a client triggers with one blank input", p.Pos(api.Pos()), w...)
+		}
+	}
+}
+
+// ruleRelatedTxAskedOnce (C12, C07): the restore's history query is one query.
+func ruleRelatedTxAskedOnce(c *report.Ctx) {
+	p := c.P
+	c.Rule("related-tx-asked-once", "chainFetcher.FetchScriptHashRelatedTx asks the chain database once, with the whole list of script hashes it was given: the answer is a map height → locations, and answers of several partial queries (batches) for the same height would have to be merged — assigned, the later batch replaces what the earlier one found, and a restore misses every payment of a block that also pays an address of a later batch", 1)
+	f := fn(c, pkgIfc, "chainFetcher", "FetchScriptHashRelatedTx")
+	if f == nil {
+		return
+	}
+	n, inLoop, whole := 0, false, false
+	for _, g := range withLiterals(f) {
+		an.Instrs(g, func(in ssa.Instruction) {
+			cc := an.CallOf(in)
+			if cc == nil || !cc.IsInvoke() || cc.Method.Name() != "FetchScriptHashRelatedTx" {
+				return
+			}
+			n++
+			if loopHeaderOf(in.Block()) != nil || g != f {
+				inLoop = true
+			}
+			if len(cc.Args) > 0 && len(f.Params) > 1 && an.ResolveCell(cc.Args[0]) == ssa.Value(f.Params[1]) {
+				whole = true
+			}
+		})
+	}
+	key := sk(f) + ":one-query"
+	switch {
+	case n == 0:
+		c.Fail(key, "the chain database is no longer asked (anchor lost)", p.Pos(f.Pos()))
+	case n > 1 || inLoop || !whole:
+		c.Fail(key, "the history of the script hashes is fetched in several partial queries: what a later query finds for a height replaces (or must be merged with) what an earlier one found — payments to addresses of different batches in one block are lost to a restore", p.Pos(f.Pos()))
+	default:
+		c.OK(key, "one query with the caller's whole list", p.Pos(f.Pos()))
+	}
+}
+
+// ruleSeenSetOutlivesConfirmation (C09): a confirmed transaction stays in the follower's seen-set until its block expires.
+func ruleSeenSetOutlivesConfirmation(c *report.Ctx) {
+	p := c.P
+	c.Rule("seen-set-outlives-confirmation", "a hash is deleted from NtfnsHandler.mempool — the follower's only 'already processed' test for a relayed transaction (filterTx) — either by RemoveMempoolTx (the transaction's records were removed with a wallet) or under the expiry test height > MaxMemPoolExpire: a transaction that has just been confirmed and is announced again (a branch switch re-announces the disconnected block's transactions) must still be found there, or it is inserted a second time as pending, for good", 1)
+	nh := p.Type(pkgWallet, "NtfnsHandler")
+	maxExp := p.Obj(pkgWallet, "MaxMemPoolExpire")
+	rm := fnOpt(c, pkgWallet, "NtfnsHandler", "RemoveMempoolTx")
+	if nh == nil || maxExp == nil {
+		c.Lost("masswallet.NtfnsHandler / MaxMemPoolExpire")
+		return
+	}
+	n := 0
+	for _, f := range p.ModFuncs {
+		if pk := an.FuncPkg(f); pk == nil || pk.Path() != pkgWallet || f.Blocks == nil {
+			continue
+		}
+		owner := f
+		for owner.Parent() != nil {
+			owner = owner.Parent()
+		}
+		k := 0
+		an.Instrs(f, func(in ssa.Instruction) {
+			cc := an.CallOf(in)
+			if cc == nil || len(cc.Args) != 2 {
+				return
+			}
+			b, ok := cc.Value.(*ssa.Builtin)
+			if !ok || b.Name() != "delete" {
+				return
+			}
+			ld, ok := cc.Args[0].(*ssa.UnOp)
+			if !ok || !isFieldLoad(ld, nh, "mempool") {
+				return
+			}
+			n++
+			k++
+			key := siteKey(f, "delete(mempool)", k)
+			if owner == rm {
+				c.OK(key, "records removed with a wallet", posOf(c, in))
+				return
+			}
+			if an.AnyAtom(p.GuardsOf(in), func(a an.Atom) bool {
+				if a.Op != token.GTR || a.Y == nil {
+					return false
+				}
+				kv := foldConst(a.Y, 0)
+				return kv != nil && kv.ExactString() == constString(maxExp)
+			}) {
+				c.OK(key, "under the expiry test", posOf(c, in))
+			} else {
+				c.Fail(key, "a hash leaves the follower's seen-set outside the expiry of its block: a transaction confirmed a moment ago and announced again is not recognised and is recorded as pending although it is mined", posOf(c, in))
+			}
+		})
+	}
+	if n == 0 {
+		c.Fail("seen-set-outlives-confirmation:sites", "nothing is ever deleted from NtfnsHandler.mempool (anchor lost)", "")
+	}
+}
+
+// ruleReturnedBlockWasDecoded (C03, C10): the block ExistsTx reports for a transaction was decoded from its credit.
+func ruleReturnedBlockWasDecoded(c *report.Ctx) {
+	p := c.P
+	c.Rule("returned-block-was-decoded", "TxStore.ExistsTx hands back a non-nil *BlockMeta only on paths that decoded a credit key into it (readRawCreditKey): its callers take nil for 'pending' (minedHeight: maximum height) and anything else for the block the output was mined in — a zero BlockMeta for an unmined parent reads as 'mined at height 0', the binding lock period is not put into the input's sequence, the wallet signs and verifies without the flag the network applies, and the network rejects the transaction", 1)
+	f := fn(c, pkgTxmgr, "TxStore", "ExistsTx")
+	dec := fn(c, pkgTxmgr, "", "readRawCreditKey")
+	if f == nil || dec == nil {
+		return
+	}
+	n := 0
+	for _, b := range f.Blocks {
+		r, isRet := b.Instrs[len(b.Instrs)-1].(*ssa.Return)
+		if !isRet || len(r.Results) != 3 || p.ClassifyReturn(r, nil) == an.RetError {
+			continue
+		}
+		bv := an.RetOperand(r, 1)
+		// judged where the value is put into the result (results are spilled when the function defers)
+		if an.IsNilConst(soleNonNil(bv)) {
+			continue
+		}
+		n++
+		key := siteKey(f, "success-return", n)
+		s := &an.Search{P: p, Fn: f, Cut: cutCalls(p, an.Set(dec)),
+			GoalInstr: func(in ssa.Instruction) bool { return in == ssa.Instruction(r) }}
+		if w := s.Run(f.Blocks[0], 0, nil); w != nil {
+			// a path that returns success without decoding: fine only if what it returns as block is nil there
+			if p.ValState(bv, b, nil) == an.IsNil {
+				c.OK(key, "nil block on the undecoded path", posOf(c, r))
+				continue
+			}
+			c.Fail(key, "ExistsTx can report success with a block that was never decoded from a credit key (an unfilled BlockMeta): callers read it as 'mined at height 0'", posOf(c, r), w...)
+		} else {
+			c.OK(key, "the block was decoded from the credit key on every path", posOf(c, r))
+		}
+	}
+	if n == 0 {
+		c.Fail(sk(f)+":success-return", "ExistsTx has no success return with a block (anchor lost)", p.Pos(f.Pos()))
+	}
+}
